@@ -24,7 +24,7 @@ META = {
                    "argument for 'first-seen among greatest height, never switches between equal tips'), plus all block trees of "
                    "<= 6 blocks compared with a reference after every arrival (head, tips, by-height index, forks()).",
     "technique": "CrossHair symbolic execution of CoinState.add_block_no_validation / forks() (symbolic heights; symbolic parent vector)",
-    "bounds": "step: 3 stored blocks + ancestors entries, heights any encodable value 0..2^32-1; histories: <= 6 blocks (quick 5)",
+    "bounds": "step: 3 stored blocks + ancestors entries, heights any encodable value 0..2^32-1; histories: <= 7 blocks (quick 5)",
     "outside": "trees larger than the bound are covered only through the step lemma; total work is this version's placeholder (height)",
     "stubs": ["PyMap for immutables.Map", "block/transaction ids are preset tokens"],
     "assumptions": ["a block's stated height is its parent's + 1 (C05 guarantees it above the checkpoint horizon)",
@@ -164,12 +164,12 @@ def _reference(parents: List[int]) -> Tuple[int, List[int], Dict[int, List[int]]
 def histories(n: int, twin: bool = False, real: bool = False):
     env = Env(real=real)
 
-    def check_histories(p2: int, p3: int, p4: int, p5: int) -> bool:
+    def check_histories(p2: int, p3: int, p4: int, p5: int, p6: int = 0) -> bool:
         """
         post: _
         """
-        pv = [p2, p3, p4, p5][:max(0, n - 2)]
-        for u in [p2, p3, p4, p5][max(0, n - 2):]:
+        pv = [p2, p3, p4, p5, p6][:max(0, n - 2)]
+        for u in [p2, p3, p4, p5, p6][max(0, n - 2):]:
             if u != 0:
                 return True
         parents = [-1, 0]
@@ -216,7 +216,7 @@ def histories(n: int, twin: bool = False, real: bool = False):
             return False
         return True
 
-    return check_histories, {"p2": 0, "p3": 0, "p4": 0, "p5": 0}
+    return check_histories, {"p2": 0, "p3": 0, "p4": 0, "p5": 0, "p6": 0}
 
 
 def obligations(tier: str, known: List[str]) -> List[Ob]:
@@ -225,7 +225,7 @@ def obligations(tier: str, known: List[str]) -> List[Ob]:
         obs.append(Ob("step[P-is-head=%s,P-is-tip=%s]" % (p_is_c, p_in_heads), C_HEAD + "; " + C_TIPS + "; " + C_IDX, "step",
                       {"p_is_c": p_is_c, "p_in_heads": p_in_heads}, timeout=300))
     obs.append(twin_of(obs[1]))
-    for n in ((2, 3, 4, 5, 6) if tier == "thorough" else (2, 3, 4, 5)):
+    for n in ((2, 3, 4, 5, 6, 7) if tier == "thorough" else (2, 3, 4, 5)):
         obs.append(Ob("histories[blocks=%d]" % n, C_HEAD + "; " + C_TIPS + "; " + C_IDX, "histories", {"n": n},
                       timeout=900 if tier == "thorough" else 300))
     obs.append(twin_of(obs[-1]))
